@@ -923,7 +923,7 @@ func (vc *VC) assumePureEnsures(st *State, pf *pureFunc, args []*Val, results []
 		if err != nil {
 			continue
 		}
-		if strings.Contains(strings.Join(resultTerms(results), " "), "q_") {
+		if mentionsBound(strings.Join(resultTerms(results), " ")) || mentionsBound(g) {
 			continue
 		}
 		vc.assume(g)
@@ -984,4 +984,24 @@ func rangeLimit(fr *Frame, li *loopInfo) ssa.Value {
 		}
 	}
 	return lim
+}
+
+// loopEnvAt: an environment in which the range indices of all loops live in
+// state st are visible ($idx#N) together with the frame's locals.
+func (vc *VC) loopEnvAt(fr *Frame, st *State) *Env {
+	env := &Env{vc: vc, st: st, old: fr.entry, vars: map[string]*Val{}, fr: fr, vis: map[string]*Val{}, idxBy: map[int]*Val{}}
+	for _, l := range fr.loops {
+		for _, ins := range l.head.Instrs {
+			if s, ok := ins.(*ssa.Store); ok {
+				if a, ok := s.Addr.(*ssa.Alloc); ok && a.Comment == "rangeindex" {
+					if c := fr.cellOf[a]; c != nil {
+						if v, ok := st.cells[c]; ok {
+							env.idxBy[l.ordinal] = v
+						}
+					}
+				}
+			}
+		}
+	}
+	return env
 }
